@@ -47,6 +47,8 @@ def ops_census(rep, cases, real) -> None:
         op = c["op"]
         rep.count(1, (op["body"], tuple(p["how"] for p in op["ps"]), tuple(r["key"] for r in op["rs"])) if c["warns"] or c["result"] != "ok" else None)
         sig = f"body={op['body']}/params={'+'.join(p['how'] for p in op['ps'] + op['pips']) or '-'}"
+        if "exc" in pr and pr["exc"].startswith("SKIPPED"):
+            continue
         if "exc" in pr:
             rep.violate(f"C07/op-crash/{sig}", "generator raised/rejected the document: the operation is not accounted for",
                         op=op, exc=pr["exc"], doc=ops.concretize(op))
